@@ -242,6 +242,7 @@ def run(ctx, out, tier):
     # the set of files the walk yields does not depend on the start directory (shared with C12 / C15)
     from rules.C12 import check_walkfiles
     check_walkfiles(ctx, out, rule="C20.walkfiles")
+    shared.check_scan_state(ctx, out, "C20.scanstate")
     return meta()
 
 
